@@ -47,6 +47,7 @@ def search(prop, violations, work):
         fam = family(v['unit'])
         if fam is None:
             continue
+        v = dict(v, prop=prop)
         driver, cfgs = fam(v)
         for i, defs in enumerate(cfgs):
             rc, info = build_and_run(driver, defs, v.get('copy', 'include'), work, '%s_%d' % (re.sub(r'\W', '_', v['unit']), i))
@@ -101,7 +102,16 @@ def fam_dynarray(v):
     return 'dynarray_model.cpp', [['CAP=%d' % c] for c in _caps(v, ['DynamicArrayT__NCapacity', 'StaticArrayT__NCapacity'], [5, 16, 1, 255])]
 
 
-FAMILIES = [(r'^c20\.bitarray\.', fam_bitarray), (r'^c13\.', fam_bitstream), (r'^c20\.(dynamic|static)\.', fam_dynarray)]
+ORACLE_MASK = {'C01': 1, 'C02': 2, 'C03': 2, 'C04': 6, 'C11': 10, 'C06': 16, 'C07': 32, 'C05': 64, 'C14': 1 | 64, 'C15': 0, 'C16': 128, 'C18': 0xFF}
+
+
+def fam_machine(v):
+    mask = ORACLE_MASK.get(v.get('prop'), 0xFF)
+    return 'machine_model.cpp', [['NS=3', 'LIMIT=2', 'ORACLES=%d' % mask, 'DEPTH=7'], ['NS=3', 'LIMIT=1', 'ORACLES=%d' % mask, 'DEPTH=7'],
+                                 ['NS=4', 'LIMIT=3', 'ORACLES=%d' % mask, 'DEPTH=6']]
+
+
+FAMILIES = [(r'^(root|structure|control)\.', fam_machine), (r'^c20\.bitarray\.', fam_bitarray), (r'^c13\.', fam_bitstream), (r'^c20\.(dynamic|static)\.', fam_dynarray)]
 
 
 def family(unit):
